@@ -61,6 +61,18 @@ class Cluster:
         self._bond_threshold = bond_threshold
         self._distance_matrix_radii_mic = None
 
+    @property
+    def indices(self):
+        return self._indices
+
+    @indices.setter
+    def indices(self, value):
+        # Quantities that were derived from the previous set of atoms are no
+        # longer valid.
+        self._indices = value
+        self._distance_matrix_radii_mic = None
+        self._dimensionality = None
+
     def __len__(self):
         return len(self.indices)
 
@@ -90,9 +102,14 @@ class Cluster:
         were used during the clustering.
         """
         if self._dimensionality is None:
+            if self._radii is None:
+                radii = "covalent"
+            else:
+                radii = np.asarray(self._radii)[self.indices]
             self._dimensionality = matid.geometry.get_dimensionality(
                 self.get_atoms(),
                 self._bond_threshold,
                 dist_matrix_radii_mic_1x=self._get_distance_matrix_radii_mic(),
+                radii=radii,
             )
         return self._dimensionality
